@@ -81,6 +81,9 @@ class Registry:
 
     def contract(self, qualname, **kw):
         c = Contract(qualname, **kw)
+        cur = self.contracts.get(qualname)
+        if cur is not None and not cur.trusted and c.trusted:
+            return cur
         self.contracts[qualname] = c
         for p in c.props:
             self.targets.setdefault(p, [])
@@ -89,7 +92,11 @@ class Registry:
         return c
 
     def external(self, qualname, **kw):
+        """assumed contract; never replaces a contract that is actually verified (registered elsewhere, in any order)"""
         kw.setdefault("trusted", True)
+        cur = self.contracts.get(qualname)
+        if cur is not None and not cur.trusted:
+            return cur
         return self.contract(qualname, **kw)
 
     def spec(self, name, params, returns, body=None, axioms=(), recursive=False, doc="", reads=None):
